@@ -38,12 +38,17 @@ def init_precedence(cx):
 def derivations(cx):
     fn = Fn(cx, INIT)
     # the data branch
-    top = [st for st in fn.ast.body if isinstance(st, ast.If) and sym.norm(st.test) == sym.norm('data is not None')]
+    top = [st for st in fn.ast.body if isinstance(st, ast.If) and sym.norm(st.test) in (sym.norm('data is not None'), sym.norm('data is None'))]
     cx.need(len(top) == 1, INIT + ': no `if data is not None` block')
     top = top[0]
+    # either orientation of the test (canonical form: the positive spelling `data is None` first)
+    if sym.norm(top.test) == sym.norm('data is None'):
+        data_branch, default_branch = top.orelse, top.body
+    else:
+        data_branch, default_branch = top.body, top.orelse
     # defaults without data
     dvals = {}
-    for st in top.orelse:
+    for st in default_branch:
         if isinstance(st, ast.If):
             p = is_none_test(st.test)
             if p and len(st.body) == 1 and isinstance(st.body[0], ast.Assign):
@@ -51,7 +56,7 @@ def derivations(cx):
     ok = dvals == {'T': ('num', 262144), 'M': ('num', 4.5), 'W': ('num', 0.5)}
     fn.ob('FORMULA', 'defaults without data are T=262144, M=4.5, W=0.5', ok, top, detail=str({k: sym.show(v) for k, v in dvals.items()}),
           key='defaults')
-    blocks = {is_none_test(st.test): st for st in top.body if isinstance(st, ast.If) and is_none_test(st.test)}
+    blocks = {is_none_test(st.test): st for st in data_branch if isinstance(st, ast.If) and is_none_test(st.test)}
     cx.need(set(blocks) >= {'T', 'M', 'W'}, INIT + ': derivation blocks for T/M/W not found')
     # order: T before M before W (M uses T, W uses M and T)
     ok = blocks['T'].lineno < blocks['M'].lineno < blocks['W'].lineno
